@@ -233,6 +233,45 @@ Definition ws_data_stage (c : ws_cfg) (s : ws_rstate) (datalen : Z) (avail : byt
            RNone, a1, ev)
     end.
 
+(* coap_ws_read, the frame header h = rd_header[0 .. hdr_ofs) is complete: opcode, size, and the
+   payload bytes that were read in along with the header *)
+Definition ws_after_hdr (c : ws_cfg) (s : ws_rstate) (h : bytes) (datalen : Z) (a1 : bytes)
+  : ws_rstate * ws_ret * bytes * list ws_ev :=
+  let keep := mkWs (w_up s) (w_flags s) (w_http s) h false (w_mask s) (w_dsize s) (w_data s) (w_closed s) in
+  let b0 := nth 0 h 0 in
+  let fh := ws_fh (nth 1 h 0) in
+  let op := b0 mod 16 in
+  if negb (op =? 2) && negb (op =? 8) then (ws_set_closed keep, RNone, a1, [WClose 1003])
+  else if op =? 8 then (ws_set_closed keep, RNone, a1, [WClose 1000])
+  else
+    let size := ws_fsize h in
+    let mask := if fh_masked fh then take 4 (drop (2 + fh_ext fh) h) else [] in
+    let zero := if size =? 0 then [WZero] else [] in
+    if datalen <? size then
+      (* COAP_EVENT_WS_PACKET_SIZE, close 1009; all_hdr_in and data_size stay set *)
+      let s1 := mkWs (w_up s) (w_flags s) (w_http s) h true mask size [] true in
+      let '(s2, a2, oob) := ws_drain 5 c s1 a1 in
+      (s2, RNone, a2, WClose 1009 :: (if oob then [WOob] else []))
+    else
+      let body := drop (fh_hl fh) h in
+      let ret := len body in
+      if 0 <? ret then
+        if ret <=? size then
+          if ret =? size then
+            (mkWs (w_up s) (w_flags s) (w_http s) [] false mask size [] (w_closed s),
+             RFrame (ws_unmask c mask body), a1, zero)
+          else
+            ws_data_stage c (mkWs (w_up s) (w_flags s) (w_http s) h true mask size body (w_closed s))
+              datalen a1
+        else
+          (mkWs (w_up s) (w_flags s) (w_http s) (drop size body) false mask size [] (w_closed s),
+           RFrame (ws_unmask c mask (take size body)), a1, zero)
+      else
+        let '(s2, r2, a2, e2) :=
+          ws_data_stage c (mkWs (w_up s) (w_flags s) (w_http s) h true mask size [] (w_closed s))
+            datalen a1 in
+        (s2, r2, a2, zero ++ e2).
+
 (* coap_ws_read once the handshake is done *)
 Definition ws_frame_part (c : ws_cfg) (s : ws_rstate) (datalen : Z) (avail : bytes)
   : ws_rstate * ws_ret * bytes * list ws_ev :=
@@ -243,43 +282,10 @@ Definition ws_frame_part (c : ws_cfg) (s : ws_rstate) (datalen : Z) (avail : byt
     let keep := mkWs (w_up s) (w_flags s) (w_http s) h false (w_mask s) (w_dsize s) (w_data s) (w_closed s) in
     if len h <? 2 then (keep, RNone, a1, [])
     else
-      let b0 := nth 0 h 0 in
-      let b1 := nth 1 h 0 in
-      let fh := ws_fh b1 in
+      let fh := ws_fh (nth 1 h 0) in
       if wsc_server c && negb (fh_masked fh) then (ws_set_closed keep, RNone, a1, [WClose 1002])
       else if len h <? fh_hl fh then (keep, RNone, a1, [])
-      else
-        let op := b0 mod 16 in
-        if negb (op =? 2) && negb (op =? 8) then (ws_set_closed keep, RNone, a1, [WClose 1003])
-        else if op =? 8 then (ws_set_closed keep, RNone, a1, [WClose 1000])
-        else
-          let size := ws_fsize h in
-          let mask := if fh_masked fh then take 4 (drop (2 + fh_ext fh) h) else [] in
-          let zero := if size =? 0 then [WZero] else [] in
-          if datalen <? size then
-            (* COAP_EVENT_WS_PACKET_SIZE, close 1009; all_hdr_in and data_size stay set *)
-            let s1 := mkWs (w_up s) (w_flags s) (w_http s) h true mask size [] true in
-            let '(s2, a2, oob) := ws_drain 5 c s1 a1 in
-            (s2, RNone, a2, WClose 1009 :: (if oob then [WOob] else []))
-          else
-            let body := drop (fh_hl fh) h in
-            let ret := len body in
-            if 0 <? ret then
-              if ret <=? size then
-                if ret =? size then
-                  (mkWs (w_up s) (w_flags s) (w_http s) [] false mask size [] (w_closed s),
-                   RFrame (ws_unmask c mask body), a1, zero)
-                else
-                  ws_data_stage c (mkWs (w_up s) (w_flags s) (w_http s) h true mask size body (w_closed s))
-                    datalen a1
-              else
-                (mkWs (w_up s) (w_flags s) (w_http s) (drop size body) false mask size [] (w_closed s),
-                 RFrame (ws_unmask c mask (take size body)), a1, zero)
-            else
-              let '(s2, r2, a2, e2) :=
-                ws_data_stage c (mkWs (w_up s) (w_flags s) (w_http s) h true mask size [] (w_closed s))
-                  datalen a1 in
-              (s2, r2, a2, zero ++ e2).
+      else ws_after_hdr c s h datalen a1.
 
 (* coap_ws_read *)
 Definition ws_read (c : ws_cfg) (s : ws_rstate) (datalen : Z) (avail : bytes)
@@ -326,7 +332,7 @@ Definition ws_session_read (c : ws_cfg) (s : ws_rstate) (avail : bytes) : ws_rst
   let s0 := if wsf_buf (wsc_fix c) then s
             else mkWs (w_up s) (w_flags s) (w_http s) (w_rdh s) (w_allhdr s) (w_mask s) (w_dsize s)
                       (map (fun _ => ws_undef) (w_data s)) (w_closed s) in
-  ws_session_loop (S (S (length (w_rdh s) + length avail))) c s0 avail.
+  ws_session_loop (S (S (length (w_http s) + length (w_rdh s) + length avail))) c s0 avail.
 
 (* level-triggered event loop *)
 Fixpoint ws_pump (fuel : nat) (c : ws_cfg) (s : ws_rstate) (avail : bytes) : ws_rstate * list ws_ev :=
